@@ -191,7 +191,7 @@ def reload_(ctx):
                     continue
                 sw, m, other = opt_sw[0]
                 none_e, some_t = (sw, m.get(0, other)), m.get(1, other)
-                leak = fin[0].bb in b.reachable(c.bb, no_edges=[none_e])
+                leak = fin[0].bb in flow.variant_reach(b, c.bb, no_edges=[none_e])
                 R.require(not leak, "loop#%d.until-exhausted" % i, c.where(), "the reload loop ends only when rows.next() returns None",
                           fail_msg="the reload loop can be left (reaching commit_snapshot) while rows remain: later rows of the actor are not reloaded")
                 sk = sinks[i]
